@@ -150,13 +150,12 @@ namespace Pistache::Tcp
                         continue;
 
                     {
+                        // Nothing is queued any more when the queue was drained - and its entry
+                        // erased - after this event was collected: by a flush() from the handler
+                        // of the input just handled, or from the handler of another peer.
                         Guard guard(toWriteLock);
-                        auto it = toWrite.find(fd);
-                        if (it == std::end(toWrite))
-                        {
-                            throw std::runtime_error(
-                                "Assertion Error: could not find write data");
-                        }
+                        if (toWrite.find(fd) == std::end(toWrite))
+                            continue;
                     }
 
                     reactor()->modifyFd(key(), fd, NotifyOn::Read, Polling::Mode::Edge);
